@@ -220,6 +220,23 @@ impl<K: PartialEq, V> DashMap<K, V> {
             None
         }
     }
+    pub fn remove_if(&self, k: &K, f: impl FnOnce(&K, &V) -> bool) -> Option<(K, V)> {
+        let idx = self.find(k);
+        if idx < MCAP {
+            let v = unsafe { &mut *self.items.get() };
+            let take = match &v.s[idx] {
+                Some(e) => f(&e.0, &e.1),
+                None => false,
+            };
+            if take {
+                v.s[idx].take()
+            } else {
+                None
+            }
+        } else {
+            None
+        }
+    }
     pub fn get(&self, k: &K) -> Option<Ref<'_, K, V>> {
         let idx = self.find(k);
         if idx < MCAP {
